@@ -69,6 +69,7 @@ BASE = {
     "get": lambda d, k, default: d.get(k, default),
     "same_ref": lambda a, b: a is b,
     "unopt": lambda x: x,
+    "same_node": lambda a, b: a == b,
     "close": lambda a, b: __import__("math").isclose(a, b, rel_tol=1e-9, abs_tol=1e-12),
     "is_neginf": lambda x: x == -float("inf"),
 }
